@@ -31,7 +31,7 @@ func runC04(e *env) error {
 		plain[0].Race = true
 		skip[0].Race = true
 	}
-	res, err := runK2(e, "c04", append(append(plain, skip...), skipCopyPinnedBatch(), methodLevelSkipCopyBatch(), namedSameUnderlyingBatch()))
+	res, err := runK2(e, "c04", append(append(plain, skip...), skipCopyPinnedBatch(), methodLevelSkipCopyBatch(), namedSameUnderlyingBatch(), sameNamedPointerBatch(e, r.Fork(3))))
 	if err != nil {
 		return err
 	}
